@@ -286,7 +286,7 @@ func rangeFacts(ls []Leaf, terms []string, top string) string {
 		case kAddrZ:
 			// representation invariant of netip.Addr: the zero Addr is all zero, IPv4 is stored as ::ffff:a.b.c.d
 			cs = append(cs, app("<=", "0", x), imp(eq(x, "0"), and(eq(terms[i-2], "0"), eq(terms[i-1], "0"))),
-				imp(eq(x, "4"), and(eq(terms[i-2], "0"), eq(app("div", terms[i-1], "4294967296"), "65535"))), not(eq(x, "5")), app("<=", x, "1000000"))
+				imp(eq(x, "4"), and(eq(terms[i-2], "0"), app("<=", "281470681743360", terms[i-1]), app("<=", terms[i-1], "281474976710655"))), not(eq(x, "5")), app("<=", x, "1000000"))
 		}
 	}
 	return and(cs...)
